@@ -43,6 +43,7 @@
 #define E_PLAN_STEP 17
 #define E_PAYLOAD2 18
 #define E_COPY_RNG 19
+#define E_COPY_PLANS 21
 #define M_SELECT 1
 #define M_ENTRY_GUARD 4
 #define M_ENTER 5
@@ -960,6 +961,54 @@ int main(void) {
     __CPROVER_assert(vf_task_count(I) == vf_task_count(&copy_), "C10 original and copy hold the same number of tasks");
 #endif
     __CPROVER_assert(vf_requests_count(I) == vf_requests_count(&copy_), "C10 original and copy have the same queue");
+  }
+#elif ENTRY == E_COPY_PLANS
+  /* C10: a copy taken while plans (tasks with and without payloads) are outstanding holds the same plans, and its plan
+     executor issues the same requests with the same payloads (update() minus processRequest() on both) */
+  { static struct T_struct_VfInst copy_;
+    phase = 0;
+    unsigned np = nondet_uchar();
+    __CPROVER_assume(np <= 2);
+    for (unsigned i = 0; i < 2; i++) if (i < np) {
+      unsigned rg = nondet_uchar();
+      unsigned o = nondet_uchar();
+      unsigned d = nondet_uchar();
+      unsigned k = nondet_uchar();
+      __CPROVER_assume(rg < NR && o < NS && d < NS && k >= 1 && k <= 3);
+#if HAVE_PAYLOAD
+      _Bool wp = nondet_bool();
+      unsigned pv = nondet_uint();
+      __CPROVER_assume(pv < 0xfffffff0u);
+      if (wp) vf_plan_append_with(I, rg, o, d, k, pv); else vf_plan_append(I, rg, o, d, k);
+#else
+      vf_plan_append(I, rg, o, d, k);
+#endif
+    }
+    plan_ok = 1;
+    vf_copy(&copy_, I);
+    for (unsigned g = 0; g < NR; g++) {
+      __CPROVER_assert(vf_plan_len(I, g) == vf_plan_len(&copy_, g), "C10 the copy holds the same plans as the original");
+      for (unsigned j = 0; j < 2; j++) if (j < vf_plan_len(I, g)) {
+        __CPROVER_assert(vf_plan_item(I, g, j, 0) == vf_plan_item(&copy_, g, j, 0) && vf_plan_item(I, g, j, 1) == vf_plan_item(&copy_, g, j, 1) && vf_plan_item(I, g, j, 2) == vf_plan_item(&copy_, g, j, 2), "C10 the copy's tasks have the same origin, destination and kind");
+#if HAVE_PAYLOAD
+        __CPROVER_assert(vf_plan_item_payload(I, g, j) == vf_plan_item_payload(&copy_, g, j), "C10 the copy's tasks carry the same payloads (or none)");
+#endif
+      }
+    }
+    phase = 1; budget = CB_BUDGET; which = 0; vf_update_plans_only(I);
+    budget = CB_BUDGET; which = 1; vf_update_plans_only(&copy_);
+    phase = 0;
+    END;
+    __CPROVER_assert(seqn[0] == seqn[1], "C10 the copy invokes as many callbacks as the original");
+    for (int i = 0; i < 48; i++) if (i < seqn[0] && i < seqn[1]) __CPROVER_assert(seq[0][i] == seq[1][i], "C10 the copy invokes the same callbacks in the same order as the original");
+    __CPROVER_assert(vf_requests_count(I) == vf_requests_count(&copy_), "C10 original and copy have the same queue");
+    for (unsigned i = 0; i < NC; i++) if (i < vf_requests_count(I) && i < vf_requests_count(&copy_)) {
+      __CPROVER_assert(vf_request_dest(I, i) == vf_request_dest(&copy_, i) && vf_request_type(I, i) == vf_request_type(&copy_, i) && vf_request_origin(I, i) == vf_request_origin(&copy_, i), "C10 the copy's plan executor issues the same requests");
+#if HAVE_PAYLOAD
+      __CPROVER_assert(vf_request_payload(I, i) == vf_request_payload(&copy_, i), "C10 the copy's plan executor attaches the same payloads");
+#endif
+    }
+    for (unsigned g = 0; g < NR; g++) __CPROVER_assert(vf_plan_len(I, g) == vf_plan_len(&copy_, g), "C10 original and copy hold the same plans afterwards");
   }
 #elif ENTRY == E_PAYLOAD
   /* C14: two queued external requests, each with or without a payload (symbolic, independent values), then update() */
